@@ -158,6 +158,7 @@ static void run_lcmorph_t(const Ctx& c) {
     }
     Adj got = observe_out(g, c, nm, c.flag(), c.m + 1);
     check_adj(c, got, c.adj, false, "out-edges", "as built");
+    check_node_data(g, c, nm, got, c.m + 1);
     morph_membership(g, c, nm, got);
   } else {
     G::readGraph(g, c.path);
@@ -167,6 +168,7 @@ static void run_lcmorph_t(const Ctx& c) {
       iso_unlabelled(c, got, false, "as built");
     else
       iso_directed(c, got, "as built");
+    check_node_data(g, c, nm, got, c.m + 1);
     morph_membership(g, c, nm, got);
   }
   for (uint32_t u = 0; u < c.n && u < 64; ++u) {
@@ -194,6 +196,7 @@ static void run_morph_t(const Ctx& c) {
     pi = iso_directed(c, got, "as built");
   else
     iso_undirected(c, got, "as built");
+  check_node_data(g, c, nm, got, bound);
   morph_membership(g, c, nm, got);
   // in-edge view
   Adj in(c.n);
@@ -295,6 +298,7 @@ static void run_hyper_t(const Ctx& c) {
   for (uint32_t i = 0; i < c.n; ++i)
     CCHECK(nm.nodes[i] == i, "node-order", "begin()[%u] = %u", i, (unsigned)nm.nodes[i]);
   Adj model = csr_check_all<Gr, false>(g, c, nm, c.adj, true, "as built");
+  check_node_data(g, c, nm, model, c.m + 1);
   check_local_ranges(g, c, nm);
   int step = 0;
   for (int op : c.ops) {
